@@ -139,6 +139,48 @@ def run(prog, chk):
             chk.ok("C12.c", f, "destructor unlinks the peer side", "%s:%s" % (f.file, f.line), "%d unlink sites" % len(peer), nontrivial=False)
         else:
             chk.bad("C12.c", f, "destructor-leaves-peer-records", "%s:%s" % (f.file, f.line), "the destructor must remove/mark the peer side's records of its connections (the peer later calls into freed memory)")
+    # ------------------------------------------------------------------ C12.f: search loops match the full identity
+    chk.rule("C12.f", "KEY: every loop in connect's inverse operations (disconnect, ~Listener, ~Emitter) that removes or marks a connection "
+                      "record matched it on every identity field of the record type (receiver and slot for an emitter entry; signal and slot "
+                      "for a listener record)", floor=5)
+    ident = {}
+    for rn in ("Callback::Emitter::Slot", "Callback::Listener::Signal"):
+        rec = prog.records.get(rn)
+        if rec is None:
+            raise AnalysisBroken("record %s not found" % rn)
+        ident[rn] = [x["n"] for x in rec["fields"] if x["t"] in ("Callback::Listener *", "Callback::MemberFuncPtr")]
+        if len(ident[rn]) != 2:
+            raise AnalysisBroken("record %s: expected two identity fields, found %s" % (rn, ident[rn]))
+    for f in F(prog, "Callback::disconnect", lambda f: f.file.endswith("Callback.cpp")) + F(prog, "Callback::Listener::~Listener") + F(prog, "Callback::Emitter::~Emitter"):
+        sites = []
+        for c in q.calls(f):
+            n = f.nodes[c]
+            m = re.match(r"^List<(Callback::Emitter::Slot|Callback::Listener::Signal)>::remove$", n.get("callee", ""))
+            if m and q.call_args(f, c):
+                sites.append((c, m.group(1), q.no_casts(f.r(q.call_args(f, c)[0]))))
+        for st_ in q.stores(f):
+            m = re.match(r"^(\w+)\.operator->\(\)->state$", q.no_casts(f.r(st_.lhs)))
+            if m and st_.rhs is not None and "disconnected" in f.r(st_.rhs):
+                sites.append((st_.node, "Callback::Emitter::Slot", m.group(1)))
+        for node, rn, it in sites:
+            got = {}
+            for a in fin.dominating_atoms(f, f.node_pos(node)):
+                if a[0] == "case" or not a[1]:
+                    continue
+                t = q.no_casts(fin.key(f, a[0]))
+                m = re.match(r"^\(%s\.operator->\(\)->(\w+) == (.+)\)$" % re.escape(it), t) or re.match(r"^\((.+) == %s\.operator->\(\)->(\w+)\)$" % re.escape(it), t)
+                if m:
+                    fld, other = (m.group(1), m.group(2)) if t.startswith("(%s." % it) else (m.group(2), m.group(1))
+                    if not re.search(r"\b%s\b" % re.escape(it), other):
+                        got[fld] = other
+            missing = [x for x in ident[rn] if x not in got]
+            if missing:
+                chk.bad("C12.f", f, "record-matched-on-partial-key:" + rn.split("::")[-1] + ":" + ",".join(missing), f.where(node),
+                        "`%s` unlinks a %s that was matched on {%s} only; `%s` is not compared, so with one slot connected to several signals "
+                        "(or several listeners sharing a slot) the record of a different, still live connection is removed and the two sides disagree"
+                        % (f.r(node)[:50], rn.split("::")[-1], ", ".join(sorted(got)) or "nothing", ", ".join(missing)), evals=len(ident[rn]))
+            else:
+                chk.ok("C12.f", f, "%s matched on %s" % (rn.split("::")[-1], "+".join(ident[rn])), f.where(node), str(got)[:80], evals=len(ident[rn]))
     # ------------------------------------------------------------------ C12.d
     shapes = {}
     for f in emits:
